@@ -6,7 +6,7 @@ from engine.index import norm, walk_own
 from engine.cfg import cfg_of
 from engine.cond import CondCtx, satisfiable
 from engine.defuse import defuse_of, attr_accesses
-from .common import calls_named, package_calls, node_lits, enclosing_trys, handler_catches, contained, resolve_arg, before
+from .common import calls_named, package_calls, node_lits, enclosing_trys, handler_catches, contained, resolve_arg, before, is_snapshot_of
 from . import c01
 from .c02 import _Sub
 
@@ -100,7 +100,7 @@ def r1(ctx):
         res = [c for c in calls_named(fi, "_handle_ack") + calls_named(fi, "_handle_timeout")]
         for c in res:
             loops = [p for p in _parents(c, fi.node) if isinstance(p, (ast.For, ast.While))]
-            ok = len(loops) == 1 and isinstance(loops[0], ast.For) and norm(loops[0].iter) == "list(self.pending_acks)" and norm(c.args[0]) == norm(loops[0].target)
+            ok = len(loops) == 1 and isinstance(loops[0], ast.For) and is_snapshot_of(loops[0].iter, "self.pending_acks") and norm(c.args[0]) == norm(loops[0].target)
             ctx.check(ok, "C07.R1", fi, c, "resolution iterates a snapshot of pending_acks and resolves the loop's own sequence number", line=c.lineno)
         # mutually exclusive per iteration
         if len(res) > 1:
